@@ -31,7 +31,6 @@ def main(argv=None) -> int:
 
     import atheris
 
-    from .. import core
     from . import c17
 
     with atheris.instrument_imports(include=["measured"], enable_loader_override=False):
